@@ -7,6 +7,7 @@
   operations CPython uses; no theorem depends on it.
 -/
 import CklVerif.Model.EvalBase
+import CklVerif.Model.Date
 namespace Ckl
 
 /-! ### binary64 <-> exact dyadic -/
@@ -49,7 +50,7 @@ def nativeArgNames : String → Option (List String)
   | "add" | "sub" | "mul" | "div" | "mod" | "equals" | "not_equals" | "less" | "less_equals"
   | "greater" | "greater_equals" | "compare" | "zip" | "if_null" | "if_empty" => some ["a", "b"]
   | "type" | "string" | "int" | "decimal" | "boolean" | "length" | "identity" | "is_empty"
-  | "is_not_empty" | "is_null" | "is_not_null" | "list" | "set" => some ["obj"]
+  | "is_not_empty" | "is_null" | "is_not_null" | "list" | "set" | "date" => some ["obj"]
   | "append" => some ["lst", "element"]
   | "remove" => some ["lst", "element"]
   | "insert_at" => some ["lst", "index", "value"]
@@ -94,6 +95,151 @@ def addSet (items : List RVal) : EvalM RVal := do
   let s ← getS
   allocM (.set (items.foldl (fun acc x => setAdd s x acc) []))
 
+/-! ### dates: `FuncAdd` / `FuncSub` on dates, `ValueDate.asInt` / `asDecimal`, `Value*.asDate` (`FuncDate`)
+
+  The day part is the integer arithmetic of `Model/Date.lean` (`toOaDay`, `toDate`: exact).  The time of day is kept in
+  whole milliseconds (`Date.toMillis` / `Date.ofMillis`), the precision `to_date` rounds to; the code computes it in
+  binary floating point and rounds to the nearest millisecond (validated by correspondence).  Inputs on which the
+  floating-point computation of the code is not determined by this integer arithmetic are `unsup`:
+    * a date with a microsecond field that is not a whole millisecond (only `date()` = now produces one);
+    * `date ± x` for a decimal `x` with a fractional part, `date - 'text'`, and for offsets beyond 10^8 days;
+    * `date(k)` for day numbers beyond 10^9 (the code walks one loop iteration per year, then raises);
+    * `decimal(date)` for a date with a time of day; `date(x)` for a fractional decimal whose product with the
+      milliseconds of a day needs more than 53 bits;
+    * `date - date` when one of them lies before 1900 (`to_oa_date` is not a day count there, `datetime` is);
+    * `date('…')` for texts with blanks / non-ASCII characters (`strptime` details) or of a length other than
+      8, 10, 14 (the code returns the host's `None`). -/
+
+/-- result of a date computation: a date, an int, a decimal, the runtime error, or "not modelled"; none touches the state -/
+inductive DateRes where
+  | date (d : DT)
+  | int (n : Int)
+  | dec (m : Int) (e : Nat)
+  | err (msg : String)      -- CklRuntimeError 'ERROR' (raised directly, or a ValueError / OverflowError turned into one by `invoke`)
+  | unsup (why : String)
+deriving Inhabited
+
+def dateResM (r : DateRes) (pos : Pos) : EvalM RVal :=
+  match r with
+  | .date d => pure (.date d)
+  | .int n => pure (.int n)
+  | .dec m e => pure (.dec m e)
+  | .err msg => throwE msg pos
+  | .unsup why => unsupported why
+
+/-- time of day in milliseconds; `none` when the microseconds are not a whole number of milliseconds -/
+def dtMillis? (d : DT) : Option Nat :=
+  if d.us % 1000 = 0 then some (Date.toMillis d.h d.mi d.s (d.us / 1000)) else none
+
+/-- integer part of `to_oa_date(d)` -/
+def dtDay (d : DT) : Nat := Date.toOaDay d.y d.mo d.d
+
+/-- day number of 9999-12-31, the last `datetime` -/
+def maxOaDay : Nat := 2958465
+
+/-- `to_date` on day number `k` and `t` milliseconds into the day: `datetime.replace` raises ValueError for a
+    day ≤ 0 (day numbers below 2) and for the year 10000 -/
+def dateOfDayMs (k : Int) (t : Nat) : DateRes :=
+  if k < 2 then .err "ValueError: day is out of range for month"
+  else if k > 1000000000 then .unsup "day number beyond 10^9 (the code walks one loop iteration per year before it raises)"
+  else if k > maxOaDay then .err "ValueError: year is out of range"
+  else
+    let ymd := Date.toDate k.toNat
+    let hms := Date.ofMillis t
+    .date ⟨ymd.1, ymd.2.1, ymd.2.2, hms.1, hms.2.1, hms.2.2.1, hms.2.2.2 * 1000⟩
+
+/-- up to this many days the float arithmetic of `to_oa_date(d) + n` and of `round(x * 86400000)` is exact on whole days;
+    beyond it the model abstains (the result is rounded, and the code walks one loop iteration per year before it raises) -/
+def maxShift : Int := 100000000
+
+/-- `to_date(to_oa_date(d) + n)` for a whole number of days `n` -/
+def dateShift (d : DT) (n : Int) : DateRes :=
+  match dtMillis? d with
+  | none => .unsup "date arithmetic on a date with microseconds"
+  | some t =>
+    if n < -maxShift ∨ n > maxShift then .unsup "date arithmetic with an offset beyond 10^8 days (binary floating point)"
+    else dateOfDayMs ((dtDay d : Int) + n) t
+
+/-- `date + b` (`neg = false`, `b` numerical) and `date - b` (`neg = true`, `b` not a date): `args.getAsDecimal("b")` days -/
+def dateShiftBy (d : DT) (b : RVal) (neg : Bool) : DateRes :=
+  match b with
+  | .int n => dateShift d (if neg then -n else n)
+  | .dec m 0 => dateShift d (if neg then -m else m)
+  | .dec _ _ => .unsup "date plus or minus a fractional number of days (binary floating point)"
+  | .bool t => dateShift d (if neg then (if t then -1 else 0) else (if t then 1 else 0))
+  | .str _ => .unsup "date minus a string (float(str))"
+  | _ => .err "Cannot convert to decimal"
+
+/-- `date - date`: whole days between two date-times, truncated toward zero (`Date.diffDays` on millisecond stamps) -/
+def dateDiff (a b : DT) : DateRes :=
+  if a.y < 1900 ∨ b.y < 1900 then .unsup "difference of dates before 1900"
+  else match dtMillis? a, dtMillis? b with
+    | some t, some u => .int (Date.diffDays (Date.stamp a.y a.mo a.d t) (Date.stamp b.y b.mo b.d u))
+    | _, _ => .unsup "difference of dates with microseconds"
+
+/-- `ValueDate.asInt`: `math.trunc(to_oa_date(d))` -/
+def dateAsInt (d : DT) : DateRes :=
+  match dtMillis? d with
+  | some _ => .int (dtDay d)
+  | none => .unsup "int(date) with microseconds"
+
+/-- `ValueDate.asDecimal`: `to_oa_date(d)`, a float -/
+def dateAsDecimal (d : DT) : DateRes :=
+  if d.h = 0 ∧ d.mi = 0 ∧ d.s = 0 ∧ d.us = 0 then .dec (dtDay d) 0
+  else .unsup "decimal(date) with a time of day (binary floating point)"
+
+/-- Python `round(x)` of the float `a / 2^e`: to the nearest integer, ties to even -/
+def roundHalfEvenDyadic (a : Int) (e : Nat) : Int :=
+  let p : Int := (2 : Int) ^ e
+  let q := a / p
+  let r := a % p
+  if 2 * r < p then q else if p < 2 * r then q + 1 else if q % 2 = 0 then q else q + 1
+
+def isAsciiDigit (c : Char) : Bool := 48 ≤ c.toNat && c.toNat ≤ 57
+
+def digitsNat (t : List Char) : Nat := t.foldl (fun acc c => acc * 10 + (c.toNat - 48)) 0
+
+/-- `ValueString.asDate`: `strptime` with `%Y%m%d`, `%Y%m%d%H`, `%Y%m%d%H%M%S` by length -/
+def parseDateStr (t : List Char) : DateRes :=
+  let n := t.length
+  if n < 8 then .err "Cannot convert to date"
+  else if n ≠ 8 ∧ n ≠ 10 ∧ n ≠ 14 then .unsup "date(string) of a length other than 8, 10, 14 (the code returns the host's None)"
+  else if t.all isAsciiDigit then
+    let y := digitsNat (t.take 4)
+    let mo := digitsNat ((t.drop 4).take 2)
+    let d := digitsNat ((t.drop 6).take 2)
+    let h := digitsNat ((t.drop 8).take 2)
+    let mi := digitsNat ((t.drop 10).take 2)
+    let s := digitsNat ((t.drop 12).take 2)
+    if 1 ≤ y ∧ 1 ≤ mo ∧ mo ≤ 12 ∧ 1 ≤ d ∧ d ≤ Date.monthDays y (mo - 1) ∧ h < 24 ∧ mi < 60 ∧ s < 60
+    then .date ⟨y, mo, d, h, mi, s, 0⟩
+    else .err "Cannot convert to date"
+  else if t.any (fun c => c.toNat < 128 && !isAsciiDigit c && c != ' ') then .err "Cannot convert to date"
+  else .unsup "date(string) with blanks or non-ASCII characters (strptime)"
+
+/-- `value.asDate()` -/
+def asDateRes (v : RVal) : DateRes :=
+  match v with
+  | .date d => .date d
+  | .int k => dateOfDayMs k 0
+  | .dec m e =>
+    -- `round(x * 86400000)`: the product is exact when its odd part fits the 53-bit significand
+    if e = 0 ∨ (m * 84375).natAbs < 2 ^ 53 then
+      let total := roundHalfEvenDyadic (m * 86400000) e
+      dateOfDayMs (total / 86400000) (total % 86400000).toNat
+    else .unsup "date(decimal) with an inexact product (binary floating point)"
+  | .str t => parseDateStr t
+  | _ => .err "Cannot convert to date"
+
+/-- `date(obj)`, `int(date)`, `decimal(date)`; everything else about `int` / `decimal` is left to the loader's
+    interpretation, and so is `date()` (the current time) -/
+def callDate (name : String) (args : List (String × RVal)) (pos : Pos) : Option (EvalM RVal) :=
+  match name, dictGet "obj" args with
+  | "date", some v => some (dateResM (asDateRes v) pos)
+  | "int", some (.date d) => some (dateResM (dateAsInt d) pos)
+  | "decimal", some (.date d) => some (dateResM (dateAsDecimal d) pos)
+  | _, _ => none
+
 /-- `FuncAdd.execute` -/
 def nativeAdd (a b : RVal) (pos : Pos) : EvalM RVal := do
   let s ← getS
@@ -124,7 +270,7 @@ def nativeAdd (a b : RVal) (pos : Pos) : EvalM RVal := do
   | some (.set ys) => return ← addSet (a :: ys)
   | _ => pure ()
   match a, b with
-  | .date _, _ => if b.isNumerical then unsupported "date arithmetic in the evaluator model" else pure ()
+  | .date d, _ => if b.isNumerical then return ← dateResM (dateShiftBy d b false) pos else pure ()
   | _, _ => pure ()
   if (a.isString && b.isAtomic) || (a.isAtomic && b.isString) then do
     let x ← asStringM a pos
@@ -157,9 +303,10 @@ def nativeSub (a b : RVal) (pos : Pos) : EvalM RVal := do
       | _ => [b]
     return ← allocM (.set (xs.filter (fun x => !memR s x minus)))
   | _ => pure ()
-  match a with
-  | .date _ => unsupported "date arithmetic in the evaluator model"
-  | _ => pure ()
+  match a, b with
+  | .date d, .date d' => return ← dateResM (dateDiff d d') pos
+  | .date d, _ => return ← dateResM (dateShiftBy d b true) pos
+  | _, _ => pure ()
   if a.isNull || b.isNull then return .null
   match a, b with
   | .int x, .int y => return .int (x - y)
@@ -533,6 +680,6 @@ def callPure (name : String) (args : List (String × RVal)) (div0 : Option RVal)
       if has "out" then unsupported "print to an explicit output"
       let t ← asStringM (← get "obj") pos
       modifyS (·.write t); pure .null
-  | _ => none
+  | _ => callDate name args pos
 
 end Ckl
